@@ -136,11 +136,48 @@ def dropKey (storeSfx uid : Str) : Str :=
 /-- `md5_dir / f"{file.stem}.txt"` of `drop_not_completed` -/
 def dropMd5 (file : Str) : Str := pathStem file ++ '.' :: sTxt
 
+/-- does `s` match the store suffix READ AS A REGULAR EXPRESSION (`md5()` interpolates it unescaped):
+    a `.` of a two-part suffix (`fa.gz`) matches any character but a newline, every other character of
+    the generated suffix domain (`[a-z0-9]`) matches itself -/
+def sfxReMatch : Str → Str → Bool
+  | [], [] => true
+  | p :: ps, c :: cs => (if p = '.' then c != '\n' else p == c) && sfxReMatch ps cs
+  | _, _ => false
+
+/-- `name` ends with a literal dot followed by a match of the suffix pattern (`[.](<suffix>)$`) -/
+def endsWithSfxRe (name storeSfx : Str) : Bool :=
+  let tail := name.drop (name.length - (storeSfx.length + 1))
+  decide (storeSfx.length + 1 ≤ name.length) && tail.head? == some '.' && sfxReMatch storeSfx (tail.drop 1)
+
+/-- one alternative of a pattern `[.](A|B|…)$`: an interpolated string read as a regular expression (`pat`, see
+    `sfxReMatch`) or a literal word (`lit`) -/
+inductive Alt
+  | pat (s : Str)
+  | lit (s : Str)
+
+def Alt.len : Alt → Nat
+  | .pat s => s.length
+  | .lit s => s.length
+
+/-- does `name` end with a dot followed by (a match of) the alternative -/
+def Alt.endsMatch (name : Str) : Alt → Bool
+  | .pat s => endsWithSfxRe name s
+  | .lit s => endsWith name ('.' :: s)
+
+/-- `re.compile(r"[.](A|B)$").search(name)` -/
+def reSearchDotAltEnd (alts : List Alt) (name : Str) : Bool := alts.any (·.endsMatch name)
+
+/-- `re.sub(r"[.](A|B)$", repl, name)`: the first alternative (in order) that matches at the end is replaced, with its dot.
+    (Python replaces the LEFTMOST match; the two agree whenever at most one alternative matches, or the matching ones
+    have the same length.) -/
+def reSubDotAltEnd (alts : List Alt) (repl name : Str) : Str :=
+  match alts.find? (·.endsMatch name) with
+  | some a => name.take (name.length - (a.len + 1)) ++ repl
+  | none => name
+
 /-- `re.sub(rf"[.]({suffix}|json)$", ".txt", name)` of `md5()` -/
 def md5Lookup (storeSfx name : Str) : Str :=
-  if endsWith name ('.' :: storeSfx) then name.take (name.length - (storeSfx.length + 1)) ++ '.' :: sTxt
-  else if endsWith name ('.' :: sJson) then name.take (name.length - 5) ++ '.' :: sTxt
-  else name
+  reSubDotAltEnd [.pat storeSfx, .lit sJson] ('.' :: sTxt) name
 
 /-- does the drop key select the not-completed member whose file name is `name`
     (`Path(m.unique_id).name != unique_id`) -/
